@@ -26,6 +26,10 @@
         over [leader?, core, tail?]  (shared model `ASV.buildLocationFromOthers`, Model/LocOps.lean) → `rebuildUnrepaired`
       _combine_sections (fix D107, fixes/D107_… owned by C10)                                      → `combineSections`
       to_biopython → from_biopython → to_biopython                                                → `prepeptideRebuild`, `prepeptideSecondPass`
+    antismash/common/secmet/features/cds_feature.py / record.py  (gene translation)
+      CDSFeature.from_biopython (table choice), _ensure_valid_translation (generation branch),
+      Record.get_aa_translation_from_location, CDSFeature.translation setter → `cdsTable`, `aaTranslation`, `forceMet`,
+      `cdsGeneratedTranslation`
   No imports outside ASV.Model (driver-linkable).
 -/
 import ASV.Model.Loc
@@ -240,6 +244,30 @@ def frameshiftText (l : Loc) (raw : String) (undo : Bool) : Res Loc :=
   match codonStartOfText raw with
   | some c => frameshift l c undo
   | none => .valueError
+
+/-! ### the gene's own translation (`CDSFeature.from_biopython` without a usable /translation) -/
+
+/-- the table `CDSFeature.from_biopython` uses BOTH as the gene's `transl_table` attribute AND to generate a missing
+    translation: the CDS's own /transl_table qualifier if present, else the record's table -/
+def cdsTable (recordTable : Nat) (qual : Option Nat) : Nat := qual.getD recordTable
+
+/-- `Record.get_aa_translation_from_location(location, table)` on the per-codon translation `aas` of the gene's whole
+    codons under that table (`*` = stop): up to the first stop; if that is empty, through the stops; then
+    `*BJOUZ` → `X` -/
+def aaTranslation (aas : List Char) : List Char :=
+  let toStop := aas.takeWhile (· != '*')
+  let seq := if toStop.isEmpty then aas else toStop
+  seq.map fun c => if "*BJOUZ".toList.contains c then 'X' else c
+
+/-- the `CDSFeature.translation` setter: an alternate start codon is shown as methionine -/
+def forceMet : List Char → List Char
+  | [] => []
+  | _ :: r => 'M' :: r
+
+/-- translation stored for a CDS that came without one; `tr t` = per-codon translation of the gene's location
+    under table `t` -/
+def cdsGeneratedTranslation (tr : Nat → List Char) (recordTable : Nat) (qual : Option Nat) : List Char :=
+  forceMet (aaTranslation (tr (cdsTable recordTable qual)))
 
 /-! ### write-out / rebuild of a prepeptide: `to_biopython` → `Prepeptide.from_biopython` -/
 
